@@ -100,9 +100,23 @@ def has_unknown(atoms) -> bool:
     return any(a and a[0] == "?" for a in atoms)
 
 
-def admits(rx: Regex, gname: str, ch: str) -> bool:
-    """Does some character position inside the named group accept `ch`?"""
-    gid = rx.groupindex.get(gname)
+def _class_has(items, ch: str) -> bool:
+    negate = hit = False
+    for op, av in items:
+        if op is C.NEGATE:
+            negate = True
+        elif op is C.LITERAL:
+            hit = hit or ord(ch) == av
+        elif op is C.RANGE:
+            hit = hit or av[0] <= ord(ch) <= av[1]
+        elif op is C.CATEGORY:
+            hit = hit or Regex._category(av, ch)
+    return hit != negate
+
+
+def admits(tree, gname: str, ch: str, dotall: bool = False) -> bool:
+    """Does some character position inside the named group accept `ch`?  (structural question on the sre parse tree)"""
+    gid = dict(tree.state.groupdict).get(gname)
     found = False
 
     def walk(seq, inside: bool) -> None:
@@ -113,30 +127,68 @@ def admits(rx: Regex, gname: str, ch: str) -> bool:
             elif op is C.BRANCH:
                 for alt in av[1]:
                     walk(alt, inside)
-            elif op in (C.MAX_REPEAT, C.MIN_REPEAT) or (hasattr(C, "POSSESSIVE_REPEAT") and op is C.POSSESSIVE_REPEAT):
+            elif op in (C.MAX_REPEAT, C.MIN_REPEAT) or op is getattr(C, "POSSESSIVE_REPEAT", None):
                 walk(av[2], inside)
             elif op is getattr(C, "ATOMIC_GROUP", None):
                 walk(av, inside)
+            elif op in (C.ASSERT, C.ASSERT_NOT):
+                continue
             elif inside:
                 if op is C.IN:
-                    found = found or rx._in(av, ch)
+                    found = found or _class_has(av, ch)
                 elif op is C.LITERAL:
                     found = found or ord(ch) == av
                 elif op is C.NOT_LITERAL:
                     found = found or ord(ch) != av
                 elif op is C.ANY:
-                    found = found or ch != "\n" or rx.dotall
+                    found = found or ch != "\n" or dotall
 
-    walk(rx.tree, False)
+    walk(tree, False)
     return found
 
 
+class StdRegex:
+    """Same questions answered by the stdlib engine (used when the checker's interpreter does not support a construct of the pattern)."""
+
+    def __init__(self, text: str, flags: int) -> None:
+        self.c = re.compile(text, flags)
+        self.groupindex = dict(self.c.groupindex)
+
+    def finditer(self, s: str) -> list:
+        return [(m.start(), m.end(), m.groupdict()) for m in self.c.finditer(s)]
+
+    def search(self, s: str):
+        m = self.c.search(s)
+        return None if m is None else (m.start(), m.end(), m.groupdict())
+
+    def match_at(self, s: str, pos: int):
+        m = self.c.match(s, pos)
+        return None if m is None else (m.end(), {gid: m.span(gid) for gid in range(1, self.c.groups + 1) if m.span(gid) != (-1, -1)})
+
+
 class LinePattern:
-    def __init__(self, p: A.Pattern, site: A.Site) -> None:
+    def __init__(self, p: A.Pattern, site: A.Site, samples: list[str], res: Result) -> None:
         self.p = p
         self.site = site
-        self.rx = Regex(p.text, p.flags)
         self.roles: dict[str, set[str]] = {}
+        self.own = True
+        try:
+            self.rx = Regex(p.text, p.flags)
+            bad = cross_validate(self.rx, samples)
+        except AnalysisError as e:
+            bad = [str(e)]
+        if bad:
+            self.own = False
+            try:
+                self.rx = StdRegex(p.text, p.flags)
+            except re.error as e:
+                raise AnalysisError(f"reconstructed pattern does not compile: {e}: {p.text!r}") from e
+            res.observe(f"C06.R1: pattern of {self.key()} evaluated with the stdlib engine (the checker's interpreter: {bad[0][:120]})")
+
+    def tree(self):
+        import re._parser as P
+
+        return P.parse(self.p.text, self.p.flags)
 
     def matches(self, line: str) -> list[tuple[int, int, dict]]:
         how = self.site.how
@@ -215,6 +267,18 @@ def run(repo: Repo) -> Result:
         shape_ok = shape_ok and ok
     Aset, a_ok = elem_atoms(interp, mods_av)
     fuzzy = bool(interp.unknown) or not shape_ok or not a_ok or has_unknown(K | V | Aset)
+    # ---- form table
+    decl_forms: list[tuple[str, str, str | None]] = []
+    for n in NAMES:
+        decl_forms += [(f"[{n}]", n, None), (f"component {n}", n, None), (f"component [{n}]", n, None), (f"[{n}] as {ALIAS}", n, ALIAS), (f"component [{n}] as {ALIAS}", n, ALIAS)]
+    dep_forms: list[tuple[str, str, str]] = []
+    refs = lambda n: [f"[{n}]", n]  # noqa: E731
+    for left, right in [("A", "src.a.b"), ("a_1", "mod2"), ("src.a.b", "A"), (ALIAS, "mod2")]:
+        for arrow, direction in ARROWS:
+            for lref in refs(left):
+                for rref in refs(right):
+                    dep_forms.append((f"{lref} {arrow} {rref}", *((left, right) if direction == "r" else (right, left))))
+    samples = [f[0] for f in decl_forms] + [f[0] for f in dep_forms]
     # ---- the line patterns: patterns whose named groups are read somewhere
     all_atoms: set = set()
     for n in list(interp.nodes.values()):
@@ -228,23 +292,11 @@ def run(repo: Repo) -> Result:
     for pk, p in interp.patterns.items():
         used = {a[2] for a in all_atoms if a[0] == "g" and a[1] == pk and isinstance(a[2], str)}
         if used and pk in site_of:
-            lps.append(LinePattern(p, site_of[pk]))
+            lps.append(LinePattern(p, site_of[pk], samples, res))
     if not lps:
         res.undecide("C06.R1", parse_key, f"no regular expression with named groups feeds the parse result (patterns seen: {len(interp.patterns)}; unmodelled: {interp.unknown[:3]})", parse_where)
         return res
     res.analysed["patterns"] = {lp.key(): lp.p.text for lp in lps}
-    # ---- form table
-    decl_forms: list[tuple[str, str, str | None]] = []
-    for n in NAMES:
-        decl_forms += [(f"[{n}]", n, None), (f"component {n}", n, None), (f"component [{n}]", n, None), (f"[{n}] as {ALIAS}", n, ALIAS), (f"component [{n}] as {ALIAS}", n, ALIAS)]
-    dep_forms: list[tuple[str, str, str]] = []
-    refs = lambda n: [f"[{n}]", n]  # noqa: E731
-    for left, right in [("A", "src.a.b"), ("a_1", "mod2"), ("src.a.b", "A"), (ALIAS, "mod2")]:
-        for arrow, direction in ARROWS:
-            for lref in refs(left):
-                for rref in refs(right):
-                    dep_forms.append((f"{lref} {arrow} {rref}", *((left, right) if direction == "r" else (right, left))))
-    samples = [f[0] for f in decl_forms] + [f[0] for f in dep_forms]
     # ---- roles of the groups: what does a group capture in matches that span a whole documented line?
     for lp in lps:
         for line, name, alias in decl_forms:
@@ -292,8 +344,8 @@ def run(repo: Repo) -> Result:
             continue
         ok = got == [(name, alias)] and not arrows
         detail = f"parsed as component {name!r}" + (f" with alias {alias!r}" if alias else "")
-        if not ok and interp.lost_patterns:
-            res.undecide("C06.R1", construct, f"not matched by the reconstructed patterns, but the text of a pattern could not be reconstructed by constant folding: `{interp.lost_patterns[0]}`", anchor_decl.where())
+        if not ok and (interp.lost_patterns or (interp.unknown and (name, alias) not in got)):
+            res.undecide("C06.R1", construct, f"not matched by the reconstructed patterns, but not every pattern could be reconstructed (unmodelled: {(interp.lost_patterns or interp.unknown)[:2]})", anchor_decl.where())
             continue
         if not ok:
             detail = f"the declaration `{line}` is parsed as {got}" + (f" plus arrows {arrows}" if arrows else "") + f" instead of [({name!r}, {alias!r})]: the documented form is not (correctly) in the language of the declaration pattern"
@@ -308,8 +360,8 @@ def run(repo: Repo) -> Result:
         extra = [d for d in decls if d not in ((tail, None), (head, None))]
         ok = got == [(tail, head)] and not extra
         detail = f"{tail} depends on {head}"
-        if not ok and interp.lost_patterns:
-            res.undecide("C06.R1", construct, f"not matched by the reconstructed patterns, but the text of a pattern could not be reconstructed by constant folding: `{interp.lost_patterns[0]}`", anchor_dep.where())
+        if not ok and (interp.lost_patterns or (interp.unknown and (tail, head) not in got)):
+            res.undecide("C06.R1", construct, f"not matched by the reconstructed patterns, but not every pattern could be reconstructed (unmodelled: {(interp.lost_patterns or interp.unknown)[:2]})", anchor_dep.where())
             continue
         if not ok:
             detail = f"the dependency line `{line}` is parsed as {got} instead of [{(tail, head)}] (dependor, dependee)" + (f" and declares {extra}" if extra else "") + ": the documented form is not (correctly) in the language of the dependency pattern"
@@ -329,11 +381,8 @@ def run(repo: Repo) -> Result:
         for role in ("name", "tail", "head"):
             for g in lp.groups(role):
                 for ch in (".", "_", "7", "x"):
-                    ok = admits(lp.rx, g, ch)
+                    ok = admits(lp.tree(), g, ch, bool(lp.p.flags & re.DOTALL))
                     res.add("C06.R1", f"{lp.key()}::group {g} admits {ch!r}", ok, f"component names may contain {ch!r}" if ok else f"the character class of group `{g}` does not admit {ch!r}: fully qualified dotted module names / identifiers cannot be component names", lp.where(), kind="regex-language")
-    bad = [b for lp in lps for b in cross_validate(lp.rx, samples)]
-    if bad:
-        raise AnalysisError(f"regex interpreter disagrees with the stdlib engine: {bad[:2]}")
     res.analysed["form_table_lines"] = len(samples)
 
     # ---- flow of the role groups into the result
